@@ -174,14 +174,14 @@ def run(ctx):
     jobs = []
     for parents in shapes:
         n = len(parents)
-        for a in assignments(n, 1 if quick else (2 if n <= 4 else 1), with_indexfile=True):
+        for a in assignments(n, 1 if quick else (2 if n <= 3 else 1), with_indexfile=True):
             t = Tree(parents, a)
             pats = patterns_for(t, "<box>")
             psets = [[]] + [[p] for p in pats]
             if quick and any(c not in ("one", "two", "mixedcase", "dots", "stemorder", "indexfile", "upperonly", "casepair", "empty", "txt")
                              for c in a):
                 psets = [[]]      # quick: the remaining content classes are crossed with patterns in the thorough tier only
-            if not quick and n <= 3:
+            if not quick and n <= 2:
                 psets += [list(c) for c in itertools.combinations(pats, 2)]
             for ps in psets:
                 for recursive, auto in itertools.product((True, False), (True, False)):
